@@ -101,7 +101,17 @@ def check_set(ctx, case) -> None:
     agg, lo, hi = mk_set(case)
     results = {}
     for cls in DEFUZZ:
-        z = getattr(fl, cls)(r).defuzzify(agg, lo, hi)
+        if case.get("warm_resolution"):
+            # the same defuzzifier object first served this range at another resolution (a defuzzifier keeps no state)
+            dz = getattr(fl, cls)(int(case["warm_resolution"]))
+            dz.defuzzify(agg, lo, hi)
+            if case.get("warm_via") == "configure":
+                dz.configure(str(r))
+            else:
+                dz.resolution = r
+            z = dz.defuzzify(agg, lo, hi)
+        else:
+            z = getattr(fl, cls)(r).defuzzify(agg, lo, hi)
         z = np.asarray(z, dtype=float)
         ctx.check(z.size == nrows, "result-shape", case, {"defuzzifier": cls, "shape": list(z.shape), "rows": nrows})
         results[cls] = [float(v) for v in z.reshape(-1)]
@@ -180,6 +190,9 @@ def cases(draw):
         r = draw(st.one_of(st.sampled_from([1, 2, 3, 5, 10, 17, 64, 100, 1000]), st.integers(1, 40),
                            st.integers(1, 1000)))
     case = {"min": lo, "max": hi, "resolution": r, "aggregation": draw(st.sampled_from(refmath.SNORMS)), "acts": acts}
+    if draw(st.integers(0, 3)) == 0:
+        case["warm_resolution"] = draw(st.sampled_from([1, 2, 7, 50, 100]))
+        case["warm_via"] = draw(st.sampled_from(["attribute", "configure"]))
     if translate:
         case["shift"] = draw(st.integers(-640, 640).filter(lambda k: k != 0)) / 64
     return case
